@@ -121,7 +121,8 @@ class DataDir(object):
 
     def read_txt(self, filename):
         path = self._path.joinpath(filename)
-        with open(path, 'r') as fp:
+        # written as utf-8 by write_txt, so do not depend on the locale here
+        with open(path, 'r', encoding='utf-8') as fp:
             return fp.read()
 
     def sha256checksums(self):
